@@ -597,3 +597,90 @@ func computeRacOldTypes(p *Prog) {
 		racOldTypes[dir][fi.Key] = out
 	}
 }
+
+
+// ---------------------------------------------------------------- run-time sweep (thorough tier)
+
+type sweepHit struct {
+	Line  string
+	Input string
+	All   string
+}
+
+func firstLineOf(s string) string {
+	if i := strings.IndexByte(s, '\n'); i >= 0 {
+		return s[:i]
+	}
+	return s
+}
+
+// racSweep runs the run-time checked build over all corpora and returns the
+// failures that belong to the given functions (one per distinct failure line,
+// with the shortest input that produced it).
+func racSweep(p *Prog, funcs map[string]bool) ([]sweepHit, int, error) {
+	var corpus []string
+	corpus = append(corpus, smallCorpus()...)
+	corpus = append(corpus, faultCorpus()...)
+	corpus = append(corpus, runtimeCorpus()...)
+	corpus = append(corpus, controlCorpus()...)
+	corpus = append(corpus, valueCorpus()...)
+	corpus = append(corpus, exampleCorpus(p.Root)...)
+	computeRacOldTypes(p)
+	run, err := runRAC(p.Root, corpus, "lex,parse,analyze,run", 900*time.Second)
+	if err != nil {
+		return nil, len(corpus), err
+	}
+	belongs := func(line string) bool {
+		// RAC-FAIL pkg.Recv.Func#...   RAC-PREFAIL caller#pre:Callee   RAC-PANIC where stage=...
+		f := strings.Fields(line)
+		if len(f) < 2 {
+			return false
+		}
+		name := f[1]
+		switch f[0] {
+		case "RAC-FAIL":
+			if i := strings.Index(name, "#"); i > 0 {
+				return funcs[name[:i]]
+			}
+		case "RAC-PREFAIL":
+			// the callee whose precondition was violated
+			if i := strings.Index(name, "#pre:"); i > 0 {
+				callee := name[i+5:]
+				for fn := range funcs {
+					if strings.HasSuffix(fn, "."+callee) {
+						return true
+					}
+				}
+			}
+		case "RAC-PANIC":
+			w := strings.TrimSuffix(name, ".func1")
+			for fn := range funcs {
+				if fn == w || strings.HasPrefix(w, fn+".") {
+					return true
+				}
+			}
+		}
+		return false
+	}
+	best := map[string]int{}
+	for idx := 0; idx < len(corpus); idx++ {
+		for _, ln := range run.ByInput[idx] {
+			if strings.HasPrefix(ln, "RAC-INFO") || !belongs(ln) {
+				continue
+			}
+			key := ln
+			if strings.HasPrefix(ln, "RAC-PANIC") {
+				key = strings.Join(strings.Fields(ln)[:2], " ")
+			}
+			if b, ok := best[key]; !ok || len(corpus[idx]) < len(corpus[b]) {
+				best[key] = idx
+			}
+		}
+	}
+	var hits []sweepHit
+	for _, k := range sortedKeys(best) {
+		idx := best[k]
+		hits = append(hits, sweepHit{Line: k, Input: corpus[idx], All: strings.Join(run.ByInput[idx], "\n")})
+	}
+	return hits, len(corpus), nil
+}
